@@ -32,11 +32,11 @@ Probes *g_probes = nullptr;
 int g_total = 0;
 bool g_finalOp = false;
 
-void emitOp(const char *op, const char *ph)
+void emitOp(const char *op, const char *ph, const char *by = "M")
 {
     QJsonObject o;
     o["e"] = "Op";
-    o["t"] = "M";
+    o["t"] = by;
     o["op"] = op;
     o["ph"] = ph;
     emitLine(o);
@@ -165,9 +165,22 @@ int main(int argc, char **argv)
                 emitOp("reset", "begin");
         });
     }
-    emitOp("move", "begin");
-    lg->moveToOwnThread();
-    emitOp("move", "end");
+    if (path == "quit2") {
+        // asynchronous logging is switched on from a thread that is not the main thread and runs no event loop
+        // ("can be called from any thread"); the application's quit must stop and drain all the same
+        std::thread other([lg] {
+            t_tag = "S2";
+            emitOp("move", "begin", "S2");
+            lg->moveToOwnThread();
+            emitOp("move", "end", "S2");
+        });
+        other.join();
+        t_tag = "M";
+    } else {
+        emitOp("move", "begin");
+        lg->moveToOwnThread();
+        emitOp("move", "end");
+    }
     bool quitOpOpen = false;
     if (app) {
         // ... and this one after it
@@ -186,7 +199,7 @@ int main(int argc, char **argv)
     for (auto &t : threads)
         t.join();
 
-    if (path == "quit") {
+    if (path == "quit" || path == "quit2") {
         emitApp("execQuit");
         quitOpOpen = true;
         QTimer::singleShot(0, app.get(), &QCoreApplication::quit);
